@@ -53,20 +53,82 @@ def local_date(ts):
 
 
 # ----------------------------------------------------------------------------- generated valid inputs
-SHAPES = ["plain", "sparse", "fully_sold", "income_only", "multi_holder", "transfers"]
+SHAPES = ["plain", "sparse", "fully_sold", "income_only", "multi_holder", "transfers", "dca", "staggered"]
 EARN = hist.EARN
 AMTS = [U // 100, U // 20, U // 10, U // 4, U // 2, U, 2 * U, 3 * U, 5 * U, 12345678900, 7 * U + 5 * 10 ** 9]
 PRICES = [U // 100, U, 10 * U, 20 * U, 50 * U, 123 * U + 45 * 10 ** 9, 1000 * U, 30000 * U]
 
 
-def gen_asset(rng, name, ne, nh, shape, off, out_types=None, n_max=9):
+def gen_dca(rng, name, off, n_buys=None, subsecond=False):
+    """dollar-cost averaging: many small buys on one account, then one disposal that consumes most of them (many lot
+    fractions for one taxable event) and a second small one.  subsecond: the buys fall into the same second (distinct
+    microseconds), the first disposal follows within seconds."""
+    n = n_buys or rng.range(24, 30)
+    y = 2019 + rng.below(3)
+    t0 = day_of(date(y, rng.range(1, 6), rng.range(1, 28))) * DAY + rng.range(8, 20) * 3600_000_000
+    ins, outs = [], []
+    t = t0
+    total = 0
+    used = set()
+    for k in range(n):
+        if subsecond:
+            us = rng.below(1_000_000)
+            while us in used:
+                us = rng.below(1_000_000)
+            used.add(us)
+            t = t0 + us
+        else:
+            t += 7 * DAY + rng.below(3600) * 1_000_000 + 1_000_000
+        amt = rng.choice([U // 10, U // 20, U // 4])
+        ins.append({"ts": [t, off], "exch": 0, "holder": 0, "type": "BUY", "spot": rng.choice(PRICES), "crypto_in": amt})
+        total += amt
+    if subsecond:
+        ins.sort(key=lambda r: r["ts"][0])
+        t = t0 + 1_000_000
+    t += rng.range(1, 5) * 1_000_000 if subsecond else rng.range(2, 30) * DAY
+    first = total - rng.choice([U // 20, U // 10]) if not subsecond else max(U // 20, total // 2)
+    outs.append({"ts": [t, off], "exch": 0, "holder": 0, "type": "SELL", "spot": rng.choice(PRICES), "crypto_out_no_fee": first, "crypto_fee": 0})
+    t += rng.range(20, 200) * DAY + 1_000_000
+    rest = total - first
+    outs.append({"ts": [t, off], "exch": 0, "holder": 0, "type": rng.choice(["SELL", "GIFT"]), "spot": rng.choice(PRICES),
+                 "crypto_out_no_fee": max(1, rest // 2), "crypto_fee": 0})
+    return {"asset": name, "ins": ins, "outs": outs, "intras": []}
+
+
+def gen_lots(rng, name, off, n_lots=None):
+    """several purchases at clearly different prices (rows 3, 4, 5, ... of the sheet, as in every asset) and partial sales:
+    which lot a sale takes depends on the method's ranking"""
+    n = n_lots or rng.range(3, 5)
+    y = 2019 + rng.below(2)
+    t = day_of(date(y, rng.range(1, 4), rng.range(1, 28))) * DAY + rng.range(8, 20) * 3600_000_000
+    prices = rng.shuffle([10 * U, 50 * U, 200 * U, 1000 * U, 3000 * U, 20 * U][:n + 1])
+    ins, outs = [], []
+    for k in range(n):
+        t += rng.range(3, 60) * DAY + rng.below(3600) * 1_000_000
+        ins.append({"ts": [t, off], "exch": 0, "holder": 0, "type": "BUY", "spot": prices[k], "crypto_in": rng.choice([U, 2 * U, U // 2])})
+    total = sum(r["crypto_in"] for r in ins)
+    for k in range(rng.range(1, 2)):
+        t += rng.range(10, 200) * DAY + 1_000_000
+        amt = max(1, total // rng.choice([3, 4, 5]))
+        total -= amt
+        outs.append({"ts": [t, off], "exch": 0, "holder": 0, "type": "SELL", "spot": rng.choice(PRICES), "crypto_out_no_fee": amt, "crypto_fee": 0})
+    return {"asset": name, "ins": ins, "outs": outs, "intras": []}
+
+
+def gen_asset(rng, name, ne, nh, shape, off, out_types=None, n_max=9, y0=None):
     """one asset's history: pairwise distinct instants, per-account balances never negative"""
+    if shape == "dca":
+        return gen_dca(rng, name, off)
+    if shape == "subsecond":
+        return gen_dca(rng, name, off, n_buys=rng.range(3, 5), subsecond=True)
+    if shape == "lots":
+        return gen_lots(rng, name, off)
     if shape == "sparse":
         years = sorted(set([2016 + rng.below(3), 2020 + rng.below(2), 2023]))
     elif shape == "income_only":
         years = [2019 + rng.below(2), 2021]
     else:
-        y0 = 2018 + rng.below(3)
+        y0 = y0 or 2018 + rng.below(3)
         years = list(range(y0, y0 + rng.range(1, 3)))
     n = rng.range(3, n_max)
     instants = set()
@@ -141,10 +203,16 @@ def gen_input(rng, shape=None, n_assets=None, out_types=None):
     n_assets = n_assets or rng.choice([1, 1, 2, 2, 3])
     off = rng.choice([0, 0, 3600, -18000, 32400])
     assets = []
+    if shape == "staggered":
+        n_assets = max(2, n_assets)
     for k in range(n_assets):
         sh = shape
-        if shape in ("income_only", "fully_sold") and k > 0 and rng.chance(50):
+        if shape in ("income_only", "fully_sold", "dca", "subsecond") and k > 0 and rng.chance(50):
             sh = "plain"
+        if shape == "staggered":
+            # every asset starts in a later year than the previous one
+            assets.append(gen_asset(rng, names[k], ne, nh, "plain", off, out_types, y0=2017 + 2 * k))
+            continue
         assets.append(gen_asset(rng, names[k], ne, nh, sh, off, out_types))
     return {"shape": shape, "exchanges": exchanges, "holders": holders, "assets": assets, "off": off}
 
@@ -289,6 +357,17 @@ def gen_window(rng, inp, kind):
     lo, hi = alld[0], alld[-1]
     style = rng.below(6)
     label = ""
+    starts = sorted(set(min(local_date(r["ts"]) for r in a["ins"]) for a in inp["assets"]))
+    late = [d for d in starts if d > lo]
+    if late and kind in ("to", "both") and (inp.get("shape") == "staggered" or rng.chance(15)):
+        # the window ends before the first acquisition of one configured asset
+        t = rng.choice(late) - timedelta(days=rng.range(1, 200))
+        if t < lo:
+            t = lo
+        if kind == "to":
+            return None, t.isoformat(), "to-before-asset-start"
+        f = lo - timedelta(days=rng.range(0, 30)) if rng.chance(50) else lo
+        return f.isoformat(), t.isoformat(), "both-before-asset-start"
     if kind == "from":
         if style == 0:
             f = date(rng.choice(alld).year, 1, 1); label = "year-start"
@@ -413,6 +492,9 @@ def run_job(job):
             f.write(job.get("ini_text") or ini_text(job["inp"], job.get("ini_extra", "")))
         sheets, rowmaps = build_sheets(job)
         l1.write_ods(ods, sheets)
+        if job.get("ods_text"):
+            with open(ods, "w", encoding="utf-8") as f:
+                f.write("timestamp,asset\n2020-01-01,BTC\n")
         if job.get("corrupt_ods"):
             with open(ods, "wb") as f:
                 f.write(b"this is not a zip archive")
@@ -434,6 +516,8 @@ def run_job(job):
             audit_file = os.path.join(d, "audit.jsonl")
             env["PYTHONPATH"] = AUDIT_DIR + os.pathsep + env["PYTHONPATH"]
             env["RP2V_AUDIT_FILE"] = audit_file
+        for k, v in (job.get("env") or {}).items():
+            env[k] = v
         if job["country"] == "generic":
             env["CURRENCY_CODE"] = "usd"
             env["LONG_TERM_CAPITAL_GAINS"] = str(job.get("env_period", 365))
